@@ -452,6 +452,23 @@ func c04Sequential(c *fw.Case, path string, model []c04rec, cfg, feat string, pr
 		allRead := round == 0
 		skippedNil, skippedAny := false, false
 		var rprog []string
+		// the slices ReadNext returned are KEPT (not copied) and compared again after the later calls and after Close:
+		// a returned record belongs to the caller, it must not change when the reader goes on or is closed
+		type keptRec struct {
+			idx int
+			got []byte
+		}
+		var kept []keptRec
+		recheckKept := func(when string) bool {
+			for _, k := range kept {
+				if !sameRec(k.got, model[k.idx].data) {
+					c.Violate("recordio/seq/returned-record-changed-later/"+when+rfeat, "%s rbuf=%d: the slice ReadNext returned for record %d read %s when it was returned and reads %s %s\nreader: %v", cfg, rbuf, k.idx, fw.Hex(model[k.idx].data), fw.Hex(k.got), when, rprog)
+					return false
+				}
+			}
+			c.Obs("kept_returned_slices_compared_again", int64(len(kept)))
+			return true
+		}
 		for i, m := range model {
 			if !allRead && r.Intn(2) == 0 {
 				rprog = append(rprog, "skip")
@@ -486,6 +503,7 @@ func c04Sequential(c *fw.Case, path string, model []c04rec, cfg, feat string, pr
 				return
 			}
 			c.Obs("seq_reads_checked", 1)
+			kept = append(kept, keptRec{i, got})
 		}
 		// end of file: both ReadNext and SkipNext must report an EOF-class error, repeatedly
 		got, err := rd.ReadNext()
@@ -497,8 +515,12 @@ func c04Sequential(c *fw.Case, path string, model []c04rec, cfg, feat string, pr
 				c.Violate("recordio/seq/skip-no-eof"+rfeat, "%s rbuf=%d: SkipNext at the end returned %v want EOF", cfg, rbuf, err)
 			}
 		}
+		okKept := recheckKept("after-the-later-calls")
 		if err := rd.Close(); err != nil {
 			c.Violate("recordio/seq/close", "%v", err)
+		}
+		if okKept {
+			recheckKept("after-close")
 		}
 	}
 }
